@@ -556,5 +556,76 @@ ITEMS = location_types() + budget_types() + error_types() + [
          proofs=[dict(after_re=r'let (value|result) = variant_payload_\w+\([^;]*\)\?;', ghost=True, text='let ghost rest_p = this.ev.rest();'),
                  dict(before_re=r'Ok\((value|result)\)\s*\}', label='C05:an_externally_tagged_payload_is_followed_by_exactly_the_mapping_end',
                       text='assert(if this.map_mode { rest_p.len() > 0 && rest_p[0] is MapEnd && this.ev.rest() == rest_p.skip(1) } else { this.ev.rest() == rest_p });')]),
+    # ---- deserialize_enum: which notation selects which variant, and what the payload is read from (C05) ----
+    dict(src=D, path='fn simple_tagged_enum_name', trusted=True, props=[],
+         ensures=[('string_surgery_is_opaque', 'r is Some <==> sp_tagged_name(*raw_tag, *tag) is Some'), ('value', 'r is Some ==> r->Some_0@ == sp_tagged_name(*raw_tag, *tag)->Some_0')]),
+    dict(src='src/parse_scalars.rs', path='fn maybe_not_string', trusted=True, props=[],
+         ensures=[('proved_in_unit_typed', 'r == sp_looks_non_string_ev(s@, *style)')]),
+    dict(src='src/de_error.rs', path='impl Error/fn quoting_required', trusted=True, props=[], ensures=[('kind', 'r is QuotingRequired')]),
+    dict(src=D, path=EN + 'enum Mode'),
+    dict(src=D, path=EN + 'struct EA'),
+    dict(src=D, path=EN + 'struct TaggedEA'),
+    dict(src=D, path='impl de::Deserializer for YamlDeserializer/fn deserialize_enum', id='YamlDeserializer::deserialize_enum#dispatch',
+        impl_header="impl<'de, 'e> YamlDeserializer<'de, 'e>", props=['C05', 'C06', 'C01'], lift_nested_fns=True,
+        pre_rewrites=[(r"fn deserialize_enum<V: Visitor<'de>>\(\s*mut self,\s*_name: &'static str,\s*_variants: &'static \[&'static str\],\s*visitor: V,\s*\) -> Result<V::Value, Self::Error>",
+                       "fn deserialize_enum_dispatch(mut self, _name: &'static str, _variants: &'static [&'static str], visitor: MapVis) -> Result<MapVisVal, Error>", 1, 'R9')],
+        rewrites=[(r'maybe_not_string\(value, style\)', 'maybe_not_string(value.as_str(), style)', None, 'R15'),
+                  (r'maybe_not_string\(&value, &style\)', 'maybe_not_string(value.as_str(), &style)', None, 'R15'),
+                  (r'Error::quoting_required\(&v\)', 'Error::quoting_required(v.as_str())', None, 'R15'),
+                  (r'Error::quoting_required\(&value\)', 'Error::quoting_required(value.as_str())', None, 'R15'),
+                  (r'_variants\.contains\(&tag_name\.as_str\(\)\)', 'variants_contain(_variants, &tag_name)', None, 'R8'),
+                  (r'tag_name != _name', 'string_ne_str(&tag_name, _name)', None, 'R8'),
+                  (r'tag_name\.clone\(\)', 'string_clone(tag_name)', None, 'R8'),
+                  (r'return visitor\.visit_enum\(TaggedEA \{', 'return visit_enum_tagged(visitor, TaggedEA {', None, 'R8'),
+                  (r'visitor\.visit_enum\(access\)', 'visit_enum_ea(visitor, access)', None, 'R8')],
+        requires=[('stream_below_2g_events', 'old(self.ev).rest().len() <= i32::MAX')],
+        ensures=[('C05:a_plain_name_selects_a_unit_like_variant_and_consumes_exactly_that_scalar', '''({ let rest0 = old(self.ev).rest();
+                r is Ok && rest0.len() > 0 && rest0[0] is Scalar && !(sp_tagged_name(rest0[0]->Scalar_raw_tag, rest0[0]->Scalar_tag) is Some
+                        && sp_is_variant(_variants, sp_tagged_name(rest0[0]->Scalar_raw_tag, rest0[0]->Scalar_tag)->Some_0))
+                    ==> r == vis_enum_plain(visitor, rest0[0]->Scalar_value@, false, rest0[0]->Scalar_location, rest0.skip(1), self.cfg)
+                        && (sp_tagged_name(rest0[0]->Scalar_raw_tag, rest0[0]->Scalar_tag) is Some ==> sp_tagged_name(rest0[0]->Scalar_raw_tag, rest0[0]->Scalar_tag)->Some_0 == _name@) })'''),
+                 ('C05:a_tag_that_names_a_variant_selects_it_and_the_untagged_scalar_is_its_payload', '''({ let rest0 = old(self.ev).rest();
+                r is Ok && rest0.len() > 0 && rest0[0] is Scalar && sp_tagged_name(rest0[0]->Scalar_raw_tag, rest0[0]->Scalar_tag) is Some
+                        && sp_is_variant(_variants, sp_tagged_name(rest0[0]->Scalar_raw_tag, rest0[0]->Scalar_tag)->Some_0)
+                    ==> r == vis_enum_tagged(visitor, sp_tagged_name(rest0[0]->Scalar_raw_tag, rest0[0]->Scalar_tag)->Some_0, rest0[0]->Scalar_location,
+                            seq![Ev::Scalar { value: rest0[0]->Scalar_value, tag: SfTag::String, raw_tag: None, style: rest0[0]->Scalar_style,
+                                              location: rest0[0]->Scalar_location, anchor: rest0[0]->Scalar_anchor }], self.cfg) })'''),
+                 ('C05:a_one_entry_mapping_selects_the_variant_by_its_scalar_key_and_the_payload_follows', '''({ let rest0 = old(self.ev).rest();
+                r is Ok && rest0.len() > 0 && rest0[0] is MapStart ==> rest0.len() > 1 && rest0[1] is Scalar
+                    && r == vis_enum_plain(visitor, rest0[1]->Scalar_value@, true, rest0[1]->Scalar_location, rest0.skip(2), self.cfg) })'''),
+                 ('C05:no_other_node_kind_is_an_enum', '''({ let rest0 = old(self.ev).rest();
+                r is Ok ==> rest0.len() > 0 && (rest0[0] is Scalar || rest0[0] is MapStart
+                    || (rest0[0] is SeqStart && sp_tagged_name(rest0[0]->SeqStart_raw_tag, rest0[0]->SeqStart_tag) is Some
+                        && sp_is_variant(_variants, sp_tagged_name(rest0[0]->SeqStart_raw_tag, rest0[0]->SeqStart_tag)->Some_0))) })'''),
+                 ('C06:no_schema_refuses_number_like_plain_names', '''({ let rest0 = old(self.ev).rest();
+                r is Ok && self.cfg.no_schema && rest0.len() > 0 && rest0[0] is Scalar && !(rest0[0]->Scalar_tag is String)
+                    ==> !sp_looks_non_string_ev(rest0[0]->Scalar_value@, rest0[0]->Scalar_style) })''')],
+        proofs=[dict(at='start', ghost=True, text='let ghost s0 = self.ev.rest();'),
+                dict(after='while depth > 0 {', text='''
+                     let k = s0.len() - this.ev.rest().len();
+                     if this.ev.rest().len() > 0 { lemma_scan_step(s0, k, depth as int); assert(s0.skip(k)[0] == s0[k]); assert(s0.skip(k).skip(1) =~= s0.skip(k + 1)); }'''),
+                dict(after='let mut depth = 1usize;', text='if s0.len() > 0 { assert(s0.skip(1) =~= s0.skip(0).skip(1)); assert(s0.skip(0) =~= s0); }'),
+                dict(before='return visit_enum_tagged(visitor, TaggedEA {', nth=2, text='assert(replay.rest() =~= replay_buf@);'),
+                dict(before_re=r'tagged_enum = None;', nth=2, text='''assert(ev == s0[0]); assert(s0[0] is Scalar);
+                     assert(replay@ =~= seq![Ev::Scalar { value: s0[0]->Scalar_value, tag: SfTag::String, raw_tag: None, style: s0[0]->Scalar_style, location: s0[0]->Scalar_location, anchor: s0[0]->Scalar_anchor }]);'''),
+                dict(before_re=r'let access = match mode \{', text='if s0.len() > 1 { assert(s0.skip(1).skip(1) =~= s0.skip(2)); assert(s0.skip(1)[0] == s0[1]); }'),
+                dict(after='replay_events.push(ev);', nth=1, text='assert(replay_events@.skip(1) =~= s0.subrange(1, (s0.len() - this.ev.rest().len()) as int));'),
+                dict(after='replay_events.push(ev);', nth=2, text='assert(replay_events@.skip(1) =~= s0.subrange(1, (s0.len() - this.ev.rest().len()) as int));'),
+                dict(after='replay_events.push(ev);', nth=3, text='assert(replay_events@.skip(1) =~= s0.subrange(1, (s0.len() - this.ev.rest().len()) as int));'),
+                dict(after='replay_events.push(ev);', nth=4, text='assert(replay_events@.skip(1) =~= s0.subrange(1, (s0.len() - this.ev.rest().len()) as int));'),
+                dict(after='replay_events.push(ev);', nth=5, text='assert(replay_events@.skip(1) =~= s0.subrange(1, (s0.len() - this.ev.rest().len()) as int));'),
+
+                dict(before_re=r'let replay = Box::new\(ReplayEvents::new\(replay_events\)\);', label='C05:a_tagged_sequence_payload_is_exactly_that_sequence_node',
+                     text='''let kk = s0.len() - this.ev.rest().len();
+                        assert(replay_events@.len() == kk && replay_events@.skip(1) =~= s0.subrange(1, kk) && this.ev.rest() == s0.skip(kk));
+                        assert((forall|j: int| 1 <= j < kk ==> !((#[trigger] s0[j]) is Taken)) ==> node_len(s0) == Some(kk));'''),
+                ],
+        loops={1: dict(header=r'^while depth > 0$', invariant=[
+                    ('bounds', '1 <= s0.len() - this.ev.rest().len() <= s0.len() && s0.len() <= i32::MAX && depth <= s0.len() - this.ev.rest().len() && s0.len() > 0 && is_start(s0[0])'),
+                    ('cursor', 'this.ev.rest() == s0.skip(s0.len() - this.ev.rest().len())'),
+                    ('cursor_tracks_scan', '(forall|j: int| 1 <= j < s0.len() - this.ev.rest().len() ==> !((#[trigger] s0[j]) is Taken)) ==> scan(s0, 1, 1) == scan(s0, s0.len() - this.ev.rest().len(), depth as int)'),
+                    ('collected_events_are_the_node_so_far', 'replay_events@.len() == s0.len() - this.ev.rest().len() && replay_events@.skip(1) =~= s0.subrange(1, s0.len() - this.ev.rest().len())')],
+                       decreases='this.ev.rest().len()')},
+        canaries=['C05:a_one_entry_mapping_selects_the_variant_by_its_scalar_key_and_the_payload_follows', 'C05:a_plain_name_selects_a_unit_like_variant_and_consumes_exactly_that_scalar']),
 ]
 ITEMS = [x for x in ITEMS if x is not None]
